@@ -376,8 +376,13 @@ def powi_job(precise, exp):
                               z3.Implies(z3.And(a % one == 0, in_rng(tdiv(exact_num, den), lo, hi)),
                                          z3.And(ok, v * den == exact_num))))
             return posts
-        # negative exponent: 1 / a^|e| ; a = 0 fails
-        return [("zero base fails for a negative exponent", z3.Implies(a == 0, z3.Not(ok)))]
+        # negative exponent: 1 / a^|e| ; a = 0 fails; the result never exceeds the exact quotient in magnitude
+        m = -e
+        am = ipow(a, m)
+        sign_ok = (v >= 0) if m % 2 == 0 else z3.If(a > 0, v >= 0, v <= 0)
+        return [("zero base fails for a negative exponent", z3.Implies(a == 0, z3.Not(ok))),
+                ("never exceeds the exact reciprocal power in magnitude, with its sign",
+                 z3.Implies(z3.And(ok, a != 0), z3.And(sign_ok, v * am <= one ** (m + 1))))]
     return SimpleJob(
         "c26m::%s_checked_powi_%s" % ("precise_decimal" if precise else "decimal", str(exp).replace("-", "m")),
         "%s::checked_powi(%d): never exceeds the exact power in magnitude (sign preserved)%s, None instead of a panic "
@@ -395,7 +400,7 @@ def powi_job(precise, exp):
 JOBS["C26"] = [root_job(False, 2, False), root_job(False, 3, False), root_job(True, 2, False), root_job(True, 3, False),
                root_job(False, 2, True), root_job(False, 3, True), root_job(False, 4, True),
                nth_root_zero_degree(False), nth_root_zero_degree(True)]
-JOBS["C26"] += [powi_job(False, e) for e in (0, 1, 2, 3, 4, 5, -1, -2)]
+JOBS["C26"] += [powi_job(False, e) for e in (0, 1, 2, 3, 4, 5, -1, -2, -3)]
 JOBS["C26"] += [powi_job(True, e) for e in (2, 3, -1)]
 
 
@@ -649,4 +654,4 @@ class ParseDecimal(Job):
 
 
 JOBS["C27"] = [ParseDecimal(False, (0, 1, 2, 3, 4, 5), (0, 1, 2, 3, 4, 5, 6, 7)),
-               ParseDecimal(True, (0, 1, 2, 3, 4), (0, 1, 2, 3, 4, 5, 6))]
+               ParseDecimal(True, (0, 1, 2, 3, 4, 5), (0, 1, 2, 3, 4, 5, 6, 7))]
